@@ -14,8 +14,18 @@ func VpHSubcompact() {
 	vpConfig("defer-asserts", 1)
 	nk := 1 + vpChoose("nkeys", vpParam("sc.keys", 2))
 	ents := vpMakeEntries(nk, vpParam("sc.versions", 3))
+	// sc.metamask: meta bits that may be set (default all); sc.noexpiry=1: no entry expires.
+	// The restricted variants trade meta generality for longer version chains within one tier.
+	metaMask := byte(vpParam("sc.metamask", 0xff))
+	noExpiry := vpParam("sc.noexpiry", 0) == 1
 	for _, e := range ents {
 		vpAssume(e.meta&bitValuePointer == 0) // value pointers only feed discard statistics
+		if metaMask != 0xff {
+			vpAssume(e.meta&^metaMask == 0)
+		}
+		if noExpiry {
+			vpAssume(e.exp == 0)
+		}
 	}
 	now := vpU64("now")
 	vpAssume(now < 1<<40)
@@ -61,6 +71,7 @@ func VpHSubcompact() {
 	curTable := -1
 	adds := 0
 	var li *vpListIter
+	capacityOff := vpParam("sc.capacity", 1) == 0
 	vpConfig("go", 1) // the goroutine that writes the finished table to disk is skipped
 	vpStub("(*badger.levelsController).checkOverlap", func(s *levelsController, tables []*table.Table, lev int) bool { return hasOverlap })
 	vpStub("badger.buildTableOptions", func(db *DB) table.Options { return table.Options{} })
@@ -75,7 +86,7 @@ func VpHSubcompact() {
 		adds++
 	})
 	vpStub("(*badger/table.Builder).ReachedCapacity", func(b *table.Builder) bool {
-		if adds == 0 {
+		if adds == 0 || capacityOff {
 			return false // a fresh builder is never full
 		}
 		return vpBool("capacity")
